@@ -13,7 +13,9 @@ scratch copy (outside /repo and /verif, removed immediately):
 * ``extract-temp``  in every function, a call that is the first positional argument of the call
                     on the right-hand side of a plain assignment / return is hoisted into a new
                     local (``x = f(g(y), z)`` -> ``_t1 = g(y); x = f(_t1, z)``; evaluation order
-                    is unchanged).
+                    is unchanged);
+* ``annotate-assign`` the first plain assignment of every local gets an annotation (``x: object = e``);
+* ``insert-pass``   a ``pass`` statement is inserted before every statement inside functions.
 
 Each variant is checked with exactly the properties whose rules consulted that file (taken from
 the committed evidence files).  A check that reports a violation or an analysis error on a twin
@@ -178,12 +180,100 @@ class ExtractTemp(ast.NodeTransformer):
         return node
 
 
+class AnnotateAssign(ast.NodeTransformer):
+    """``x = e`` -> ``x: object = e`` for plain local names inside functions (annotations of locals are
+    never evaluated; the repository uses ``from __future__ import annotations`` throughout)."""
+
+    def __init__(self):
+        self.skip: list[set] = []
+
+    def visit_FunctionDef(self, node):
+        declared = set()
+        for n in ast.walk(node):
+            if isinstance(n, (ast.Global, ast.Nonlocal)):
+                declared |= set(n.names)
+        # a name may be annotated only once sensibly; annotate the first plain assignment of each name
+        self.skip.append(declared)
+        self.generic_visit(node)
+        self.skip.pop()
+        return node
+
+    visit_AsyncFunctionDef = visit_FunctionDef
+
+    def visit_ClassDef(self, node):
+        saved, self.skip = self.skip, []
+        self.generic_visit(node)
+        self.skip = saved
+        return node
+
+    def visit_Lambda(self, node):
+        return node
+
+    def visit_Assign(self, node):
+        if self.skip and len(node.targets) == 1 and isinstance(node.targets[0], ast.Name) and node.targets[0].id not in self.skip[-1]:
+            self.skip[-1].add(node.targets[0].id)
+            return ast.copy_location(
+                ast.AnnAssign(target=node.targets[0], annotation=ast.Name(id="object", ctx=ast.Load()), value=node.value, simple=1), node)
+        return node
+
+
+class InsertPass(ast.NodeTransformer):
+    """A ``pass`` statement is inserted before every statement of every function body (and of the
+    bodies of compound statements inside functions)."""
+
+    def __init__(self):
+        self.depth = 0
+
+    def _pad(self, body):
+        out = []
+        for i, st in enumerate(body):
+            is_doc = i == 0 and isinstance(st, ast.Expr) and isinstance(st.value, ast.Constant) and isinstance(st.value.value, str)
+            if not is_doc:
+                out.append(ast.copy_location(ast.Pass(), st))
+            out.append(st)
+        return out
+
+    def generic_visit(self, node):
+        super().generic_visit(node)
+        if isinstance(node, (ast.FunctionDef, ast.AsyncFunctionDef)) or self.depth:
+            for fld in ("body", "orelse", "finalbody"):
+                b = getattr(node, fld, None)
+                if isinstance(b, list) and b and isinstance(b[0], ast.stmt):
+                    # keep `elif` chains as they are (orelse == [If])
+                    if fld == "orelse" and len(b) == 1 and isinstance(b[0], ast.If) and isinstance(node, ast.If):
+                        continue
+                    setattr(node, fld, self._pad(b))
+            if isinstance(node, ast.Try):
+                for h in node.handlers:
+                    h.body = self._pad(h.body)
+            if isinstance(node, ast.Match):
+                for c in node.cases:
+                    c.body = self._pad(c.body)
+        return node
+
+    def visit_FunctionDef(self, node):
+        self.depth += 1
+        self.generic_visit(node)
+        self.depth -= 1
+        return node
+
+    visit_AsyncFunctionDef = visit_FunctionDef
+
+    def visit_ClassDef(self, node):
+        saved, self.depth = self.depth, 0
+        self.generic_visit(node)
+        self.depth = saved
+        return node
+
+
 KINDS = {
     "reformat": None,
     "rename-locals": Renamer,
     "flip-if": FlipIf,
     "flip-compare": FlipCompare,
     "extract-temp": ExtractTemp,
+    "annotate-assign": AnnotateAssign,
+    "insert-pass": InsertPass,
 }
 
 
